@@ -22,6 +22,14 @@ if r.returncode != 0:
     print("patch does not apply:", r.stderr)
     sys.exit(2)
 results = {}
+# evidence written while a seeded change is applied describes the seeded tree: keep the real one aside
+import shutil
+saved = {}
+for p in props:
+    ev = os.path.join(HERE, "evidence", p + ".json")
+    if os.path.exists(ev):
+        saved[p] = ev + ".keep"
+        shutil.copy(ev, saved[p])
 try:
     for p in props:
         pr = subprocess.run([os.path.join(HERE, "check"), p, tier], capture_output=True, text=True, cwd=HERE)
@@ -31,6 +39,8 @@ try:
         for l in lines:
             print("   " + l)
 finally:
+    for p, keep in saved.items():
+        shutil.move(keep, os.path.join(HERE, "evidence", p + ".json"))
     subprocess.run(["git", "-C", "/repo", "checkout", "--", "."], check=True)
     # the generated Lean modules follow /repo: put them back too, so that nothing derived from the seeded tree is left
     subprocess.run([sys.executable, "-c", "import sys; sys.path.insert(0, %r); from vlib import core; core.build_harness(); core.regen()" % HERE],
